@@ -121,14 +121,6 @@ theorem c10_keywords :
 
 /-! Non-vacuity: each form is accepted for some value (and the hypotheses of `c10` are satisfiable). -/
 
-/-- An oracle that knows two addresses. -/
-def exampleExt : Ext where
-  psl := fun _ => ([], false)
-  parseAddr := fun s =>
-    if s == lit "1.2.3.4" then some { is4 := true, val := 16909060 }
-    else if s == lit "::1" then some { is4 := false, val := 1 } else none
-  parsePrefix := fun _ => none
-  pat := fun _ _ _ => false
 
 example : (loadDNSRewrite exampleExt (lit "NOERROR;MX;10 mail.example.net")).toOption =
     some { rrType := 15, value := .mx 10 (lit "mail.example.net") } := by decide
